@@ -733,6 +733,11 @@ func (an *Analyzer) stepSlice(s *State, f *Frame, i *ssa.Slice, final bool) {
 	if isStr {
 		limit = xlen
 	}
+	if an.cfg.StrictLen != nil && an.cfg.StrictLen(f.fn) {
+		// "reads outside the buffer": re-slicing beyond the length (within the capacity) does not panic but
+		// exposes octets that are not part of the buffer
+		limit = xlen
+	}
 	if final {
 		okLo := s.proveLE(Lin{nil, 0}, lo, 0)
 		okMid := s.proveLE(lo, hi, 0)
